@@ -105,6 +105,11 @@ TECH_ADD = {
 for _k, _v in TECH_ADD.items():
     _c = P[_k]
     P[_k] = (_c[0], _c[1] + _v) + _c[2:]
+ENVP = ("; cold-start stage (first cases of every kind in fresh interpreters, each under python -O / another TZ / another hash seed) and "
+        "environment pass (the quick workload once more under python -O, TZ=America/St_Johns, PYTHONHASHSEED=4242, C locale with an ASCII file-system encoding)")
+for _k in list(P):
+    _c = P[_k]
+    P[_k] = (_c[0], _c[1] + ENVP) + _c[2:]
 
 
 def main():
